@@ -29,6 +29,10 @@ type c41Prog struct {
 	SegBytes   int
 	ReadAhead  int
 	ValSize    int
+	// Restart: after the workload a new handler is started on the same store and S3 and
+	// ColdReaders fetchers per partition plus one producer hit the cold partitions at once
+	Restart     bool
+	ColdReaders int
 }
 
 func TestVF_C41_RaceStress(t *testing.T) {
@@ -45,6 +49,8 @@ func TestVF_C41_RaceStress(t *testing.T) {
 			SegBytes:   rapid.SampledFrom([]int{200, 600, 0}).Draw(t, "segbytes"),
 			ReadAhead:  rapid.SampledFrom([]int{0, 2}).Draw(t, "readahead"),
 			ValSize:    rapid.SampledFrom([]int{8, 64}).Draw(t, "valsize"),
+			Restart:    rapid.Bool().Draw(t, "restart"),
+			ColdReaders: rapid.IntRange(2, 4).Draw(t, "coldreaders"),
 		}
 		st.Eval()
 		const topic = "orders"
@@ -159,6 +165,76 @@ func TestVF_C41_RaceStress(t *testing.T) {
 		wgProd.Wait()
 		done.Store(true)
 		wg.Wait()
+		if p.Restart {
+			// cold start: every partition log is created and restored by whoever touches it
+			// first; several fetchers and a producer do so at the same moment
+			h.coordinator.Stop()
+			h2 := vfNewHandler(store, obj, vfHandlerOpts{SegmentBytes: p.SegBytes, CacheBytes: p.CacheBytes, ReadAhead: p.ReadAhead, NoS3Backpressure: true})
+			start := make(chan struct{})
+			var wg2 sync.WaitGroup
+			for part := int32(0); part < int32(p.Partitions); part++ {
+				for r := 0; r < p.ColdReaders; r++ {
+					wg2.Add(1)
+					go func(part int32, r int) {
+						defer wg2.Done()
+						<-start
+						off := int64(r) // different offsets of the same first segment
+						for it := 0; it < 30; it++ {
+							fr, err := vfFetch(h2, 11, topic, part, off, []int32{64, 300, 4000}[(it+r)%3])
+							ops[part].Add(1)
+							if err != nil {
+								addErr(fmt.Sprintf("cold fetch transport error: %v", err))
+								return
+							}
+							if fr.ErrorCode != 0 {
+								continue
+							}
+							bs, _ := vfkit.DecodeBatchesLenient(fr.Records)
+							for _, b := range bs {
+								if len(b.Records) == 0 {
+									continue
+								}
+								key := string(b.Records[0].Key)
+								tag := key[:len(key)-2]
+								mu.Lock()
+								s := sentBy[tag]
+								mu.Unlock()
+								if s == nil || !bytes.Equal(b.Raw[8:], s.raw[8:]) {
+									addErr(fmt.Sprintf("after restart fetch(%s/%d,%d) returned batch %q that differs from what was produced", topic, part, off, tag))
+								}
+								if last := b.BaseOffset + int64(len(b.Records)); last > off {
+									off = last
+								}
+							}
+						}
+					}(part, r)
+				}
+				wg2.Add(1)
+				go func(part int32) {
+					defer wg2.Done()
+					<-start
+					for i := 0; i < 5; i++ {
+						tag := fmt.Sprintf("p%d-cold-%d", part, i)
+						raw := c06Batch(tag, 1+i%3, p.ValSize)
+						s := &sent{raw: raw}
+						mu.Lock()
+						sentBy[tag] = s
+						mu.Unlock()
+						res, err := vfProduce(h2, 7, -1, "vf", []vfProducePart{{topic, part, raw}})
+						ops[part].Add(1)
+						if err == nil && len(res) == 1 && res[0].ErrorCode == 0 {
+							mu.Lock()
+							s.base, s.ok = res[0].Base, true
+							mu.Unlock()
+						}
+					}
+				}(part)
+			}
+			close(start)
+			wg2.Wait()
+			h2.coordinator.Stop()
+			st.Class("cold-start-with-concurrent-first-touch")
+		}
 		// acked base offsets must be unique per partition
 		seen := map[string]string{}
 		for tag, s := range sentBy {
